@@ -21,7 +21,8 @@ func init() {
 			"R4 argument normalisation — the root walked is the argument with a trailing \"...\" trimmed, joined to the working directory when relative and cleaned when absolute. " +
 			"NOT decided: operating-system semantics of Walk and of path cleaning." +
 			" R6 the compiled patch does not remember earlier files." +
-			" R7 os.Args[1:] -> Run -> ParseArgs -> options.Args.Patterns -> findFiles, each hop the value as it is, and no function assigns the Patterns field.",
+			" R7 os.Args[1:] -> Run -> ParseArgs -> options.Args.Patterns -> findFiles, each hop the value as it is, and no function assigns the Patterns field." +
+			" R8 before the filepath.Walk call findGoFiles returns only with a non-nil error.",
 		Trusted:     append([]string{"filepath.Walk and filepath.WalkDir use Lstat and do not follow symbolic links"}, commonTrusted...),
 		Assumptions: commonAssumptions,
 	})
@@ -40,6 +41,7 @@ func runC15(r *an.Run) {
 	// (a change that failed on it) is remembered in the compiled patch and makes it skip the files after it
 	compiledProgramReadOnly(r, "R6-the-compiled-patch-does-not-remember-earlier-files")
 	argumentsTakenAsGiven(r, "R7-the-arguments-reach-file-discovery-as-given")
+	nothingSkippedBeforeTheWalk(r, "R8-nothing-is-skipped-before-the-walk")
 }
 
 func walkCallback(r *an.Run) (f, clo *ssa.Function, walk ssa.CallInstruction) {
